@@ -87,4 +87,13 @@ def qsa_ctrl_requested_order(psi, keep):
     keep = set(keep)
     k_inds = tuple(map(psi.site_ind, keep))
     return psi.to_dense(k_inds)
+
+
+def qsa_ctrl_positional_broadcast(t, outcome):
+    # C03 axis-by-label control: a freshly built vector broadcast against stored data (aligned with the last stored axis)
+    import numpy as np
+    proj = [0.0, 0.0]
+    proj[outcome] = 1.0
+    t.modify(data=t.data * np.asarray(proj))
+    return t
 '''
